@@ -56,7 +56,10 @@ def _child_verify(i):
                 for key, (fn, cls, kind, how) in getattr(c, "stubs", {}).items():
                     stubs.update(function_tables(rf, {key: (fn, cls, kind)}))
                     stub_kinds[key] = how
+                from .reify import otp_tables
+                otp = otp_tables(rf) if any(d.name() in ("otp_has", "otp_val") for d in o.model.decls()) else {}
                 j["witness"] = {
+                    "otp": otp,
                     "contract": c.name, "target": c.target, "obligation": o.name, "exact_model": bool(getattr(o, "exact_model", True)),
                     "inputs": inputs, "stubs": stubs, "stub_kinds": stub_kinds, "call": native_call(c, res.fs),
                     "requires": c.requires, "ensures": [list(e) for e in c.ensures], "raises": c.raises,
